@@ -49,6 +49,13 @@ CHECKS = {
              "kinds; long seeded histories with decimal durations are judged by TLC (ReaderTrace). Construction rejections are a decision table.",
         ref="DESIGN.md 5/C10, Appendix D", technique="TLA+ model checking (TLC) + spec->code history replay + code->spec trace validation",
         note=READER_NOTE),
+    "C11": dict(
+        text="TLC enumerates every transition (state x call x argument) of the abstract audio source for buffer / raw / wav / stdin and "
+             "checks C11 on it; leg R is one implementation test per transition (pre-state established on a fresh real source, result "
+             "and post-state compared); leg T validates seeded call sequences of the real sources (incl. dense position_ms / position_s "
+             "sweeps at realistic rates) against SourceTrace with TLC.",
+        ref="DESIGN.md 5/C11", technique="TLA+ model checking (TLC) + one implementation test per model transition + trace validation",
+        note=READER_NOTE + " read(0), sub-sample negative instants and non-dyadic position_s values are not generated (O3-O5); stdin is a BytesIO-backed sys.stdin."),
     "C19": dict(
         text="Same Reader spec: invariants C19 (recorded data = consumed prefix, each sample once, never beyond max_read) and C19Replay "
              "(blocks after a rewind replay those before it); data before the first rewind and data/rewind on non-recording readers "
